@@ -6,6 +6,7 @@ import (
 	"fmt"
 	"go/token"
 	"go/types"
+	"os"
 	"strings"
 
 	"golang.org/x/tools/go/ssa"
@@ -158,7 +159,7 @@ func runC14(c *Ctx) {
 			switch {
 			case others == 0 && pc == 1 && par == -1 && ch == 1 && (f.l.k == 0 || f.l.k == 1):
 				nGood++
-			case others == 0 && pc == 1 && par == 0 && ch == 0 && (f.l.k == 0 || f.l.k == 1) && f.initial:
+			case others == 0 && pc == 1 && par == 0 && (ch == 0 || ch == 1) && (f.l.k == 0 || f.l.k == 1) && f.initial:
 				// the loop-entry value of a carried offset (no sentinel seen yet); parseStackPCs refuses
 				// to enter a goroutine without a sentinel (C14.control-dependence inventory)
 			default:
@@ -443,6 +444,8 @@ type relocForm struct {
 
 // relocForms enumerates the alternative linear forms of v in parseStackPCs: phis are expanded
 // (self-references through the loop are dropped), +/− are followed, conversions are transparent.
+var again = map[ssa.Value]bool{}
+
 func relocForms(v ssa.Value, busy map[ssa.Value]bool, depth int, facts []Fact) ([]relocForm, string) {
 	if depth > 24 {
 		return nil, " expression too deep"
@@ -480,12 +483,50 @@ func relocForms(v ssa.Value, busy map[ssa.Value]bool, depth int, facts []Fact) (
 		}
 	case *ssa.Phi:
 		if busy[x] {
-			return nil, ""
+			// reached again through a back edge: the value the variable had in an EARLIER
+			// iteration. What is known at the use site (this iteration) says nothing about the
+			// edge over which it got that value then, so the merge is expanded once more
+			// without ruling edges out.
+			if again[x] {
+				return nil, ""
+			}
+			again[x] = true
+			defer delete(again, x)
+			var out []relocForm
+			for i, e := range x.Edges {
+				if strip(e) == ssa.Value(x) {
+					continue
+				}
+				fs, w := relocForms(e, busy, depth+1, edgeFactsOf(x, i))
+				if w != "" {
+					return nil, w
+				}
+				_, isConst := e.(*ssa.Const)
+				fromOutside := !x.Block().Dominates(x.Block().Preds[i])
+				for _, f := range fs {
+					if isConst && fromOutside {
+						f.initial = true
+					}
+					out = append(out, f)
+				}
+			}
+			return out, ""
 		}
 		busy[x] = true
 		defer delete(busy, x)
 		var out []relocForm
 		dead := deadEdges(x.Block(), facts)
+		if os.Getenv("VERIF_DEBUG_RELOC") != "" {
+			var es []string
+			for i, e := range x.Edges {
+				es = append(es, fmt.Sprintf("%d:%s dead=%v", i, shortDesc(describe(e)), dead[i]))
+			}
+			var fd []string
+			for _, f := range facts {
+				fd = append(fd, fmt.Sprintf("%v:%s", f.Pol, shortDesc(describe(f.Cond))))
+			}
+			fmt.Printf("RELOC phi %s@b%d edges %v\n      facts %v\n", x.Name(), x.Block().Index, es, fd)
+		}
 		for i, e := range x.Edges {
 			if dead[i] {
 				continue // ruled out where the value is used (e.g. the error exit of the PC parser)
@@ -629,6 +670,30 @@ func c14SentinelLine(c *Ctx, m *Module) {
 			rfmt = k
 		}
 	}
+	// the sentinel is read ONCE: the scan is reached only while no sentinel has been read yet
+	// (a later line of the report that happens to start with "sentinel " must not replace it —
+	// the relocation would then be chosen by the crash text)
+	nScan := 0
+	for _, cs := range callsIn(psp, "fmt.Sscanf") {
+		nScan++
+		first := hasFact(factsAt(cs), func(f Fact) bool {
+			bo, ok := f.Cond.(*ssa.BinOp)
+			if !ok || !assertsEq(bo, f.Pol) {
+				return false
+			}
+			for _, pair := range [][2]ssa.Value{{bo.X, bo.Y}, {bo.Y, bo.X}} {
+				if k, isC := intConst(pair[1]); isC && k == 0 {
+					if b, isB := pair[0].Type().Underlying().(*types.Basic); isB && b.Kind() == types.Uint64 {
+						return true
+					}
+				}
+			}
+			return false
+		})
+		r.Check("C14.relocation", "parseStackPCs/the sentinel is scanned only while none has been read", m.Pos(cs.Pos()), first,
+			"Sscanf(\"sentinel %x\") must lie under parentSentinel == 0")
+	}
+	r.Check("C14.relocation", "parseStackPCs/sentinel scan sites", m.Pos(psp.Pos()), nScan == 1, fmt.Sprintf("%d", nScan))
 	r.Check("C14.relocation", "sentinel is written as a line of its own in the format the child scans", m.Pos(ws.Pos()),
 		wfmt != "?" && wfmt == rfmt+"\n" && strings.HasSuffix(rfmt, "%x"),
 		fmt.Sprintf("writer format %q, reader format %q: the writer's must be the reader's followed by a newline", wfmt, rfmt))
